@@ -32,7 +32,7 @@ def gen_value(rnd, ty, depth):
         if rnd.random() < 0.04:     # long values: around the sizes at which buffers and vectors grow
             n = rnd.choice([255, 256, 257, 1023, 1024, 1025, 4095, 4096, 4097, 10000])
             return "".join(rnd.choice("abcdefghij klmnop.;,(){}") for _ in range(n))
-        return rnd.choice(["1", "2", "x", "y", "5m", "true", "X", "hello world", "q\"uote", "back\\slash", "caf\xe9", "", "a;b", "line\nbreak", "#tok.en-_"])
+        return rnd.choice(["1", "2", "x", "y", "5m", "true", "X", "hello world", "q\"uote", "back\\slash", "caf\xe9", "", "a;b", "line\nbreak", "#tok.en-_", "100%", "%s%s%s%s%n", "%d %x %s"])
     if ty == LIST:
         if rnd.random() < 0.06:     # long lists: counts at and across powers of two
             n = rnd.choice([4, 7, 8, 9, 15, 16, 17, 31, 32, 33, 64, 65])
@@ -382,7 +382,8 @@ def damage(rnd, text):
     if k < 0.8:
         # parser-relevant fragments spliced in at a random position (inside or outside strings)
         frags = ['\\x4"', '\\x', '\\xg"', '\\', '"', '\\"', '/*', '*/', '//', '(', ')', '{', '}', ',', ';', '\n', '\\x4', '\x00',
-                 '\\x4"\n', '"\\', '\\n"', '""', '( (', '} }', ',,', '/', '/*/', '\\x']
+                 '\\x4"\n', '"\\', '\\n"', '""', '( (', '} }', ',,', '/', '/*/', '\\x',
+                 '%s%s%s%s%s%n', ' %n oops here', '"%s%s" %s )', '%']
         return {"how": "splice", "at": [rnd.randrange(len(b) + 1) for _ in range(rnd.choice([1, 1, 2]))],
                 "frag": [rnd.choice(frags) for _ in range(2)]}
     if k < 0.85:
